@@ -8,7 +8,7 @@ from io import BytesIO
 
 from hypothesis import strategies as st
 
-from vlib import build, chunktools, snapshot, specmodel
+from vlib import iovariants, build, chunktools, snapshot, specmodel
 from vlib import strategies as vs
 from vlib.harness import REPO, PropertyViolation, run_property
 
@@ -325,17 +325,11 @@ def legacy_case(draw):
     return case
 
 
-def run_legacy(ctx, case):
-    from rv.api import Synth, read_sunvox_file
-
-    if case["src"] == "fixture":
-        with open(os.path.join(REPO, "tests", "files", "sampler.sunsynth"), "rb") as f:
-            data = f.read()
-    else:
-        data = Synth(build.make_module(case["spec"])).read()
+def legacy_variant_bytes(data, variant, sign="\x00\x00\x00\x00"):
+    """Re-encode a Sampler synth file the way older SunVox versions wrote it: foreign signature in the
+    instrument record ("signature"), no envelope chunks ("no_envelopes"), or both.  Returns (bytes, record)."""
     chunks = chunktools.parse(data)
     out = []
-    skip = 0
     rec = None
     i = 0
     while i < len(chunks):
@@ -344,13 +338,13 @@ def run_legacy(ctx, case):
             (num,) = struct.unpack("<I", payload)
             if num == 0:
                 rec = bytearray(chunks[i + 1][1])
-                if case["variant"] in ("signature", "both"):
-                    rec[0xFC:0x100] = case["sign"].encode("latin1")
+                if variant in ("signature", "both"):
+                    rec[0xFC:0x100] = sign.encode("latin1")
                 out.append((cid, payload))
                 out.append((b"CHDT", bytes(rec)))
                 i += 2
                 continue
-            if 0x102 <= num <= 0x108 and case["variant"] in ("no_envelopes", "both"):
+            if 0x102 <= num <= 0x108 and variant in ("no_envelopes", "both"):
                 # drop CHNM + CHDT (+ CHFF/CHFR if any) of the envelope chunk
                 i += 1
                 while i < len(chunks) and chunks[i][0] in (b"CHDT", b"CHFF", b"CHFR"):
@@ -358,7 +352,18 @@ def run_legacy(ctx, case):
                 continue
         out.append((cid, payload))
         i += 1
-    vb = chunktools.build(out)
+    return chunktools.build(out), rec
+
+
+def run_legacy(ctx, case):
+    from rv.api import Synth, read_sunvox_file
+
+    if case["src"] == "fixture":
+        with open(os.path.join(REPO, "tests", "files", "sampler.sunsynth"), "rb") as f:
+            data = f.read()
+    else:
+        data = Synth(build.make_module(case["spec"])).read()
+    vb, rec = legacy_variant_bytes(data, case["variant"], case["sign"])
     labels = set()
     if case["variant"] in ("signature", "both"):
         labels.add("legacy_signature")
@@ -385,7 +390,15 @@ def run_legacy(ctx, case):
         for key in ("volume_envelope", "panning_envelope", "pitch_envelope", "effect_control_envelopes"):
             if s_orig[key] != s_leg[key]:
                 raise PropertyViolation("C16.legacy.load", "signature-only variant: %s loads differently" % key, key="C16.legacy.load:" + key)
-    # save -> load keeps what the legacy instrument carried
+    # save -> load keeps what the legacy instrument carried; the same object saves the same bytes every
+    # time, whichever way it is written (read / write_to / clone / inside a project)
+    first = Synth(leg).read()
+    iovariants.writers_agree(Synth(leg), first, "C16.legacy")
+    if Synth(leg).read() != first:
+        raise PropertyViolation("C16.legacy.save_repeatable", "legacy variant %r: a later save of the same object writes %d bytes, the first wrote %d" % (case["variant"], len(Synth(leg).read()), len(first)), key="C16.legacy.save_repeatable")
+    d = snapshot.diff(s_leg, snapshot.snap_module(leg.clone(), in_project=False)["payload"])
+    if d:
+        raise PropertyViolation("C16.legacy.clone", "legacy variant %r: clone() after saves: %s" % (case["variant"], "; ".join("%s: %r -> %r" % x for x in d[:3])), key="C16.legacy.clone")
     again = read_sunvox_file(BytesIO(Synth(leg).read())).module
     s_again = snapshot.snap_module(again, in_project=False)["payload"]
     d = snapshot.diff(s_leg, s_again)
